@@ -125,7 +125,7 @@ class ChatMessagePacket(Packet):
                0x0F if context.protocol_later_eq(550) else \
                0x0E if context.protocol_later_eq(343) else \
                0x0F if context.protocol_later_eq(332) else \
-               0x10 if context.protocol_later_eq(317) else \
+               0x10 if context.protocol_later_eq(318) else \
                0x0F if context.protocol_later_eq(107) else \
                0x02
 
